@@ -262,3 +262,123 @@ Proof.
   - apply cmp_zero_zero.
   - intros p Hin. apply cmp_zero_positive. rewrite Forall_forall in Hp. apply Hp. exact Hin.
 Qed.
+
+Lemma nth_error_app_mid_pos {A} (a : list A) y b : nth_error (a ++ y :: b) (length a) = Some y.
+Proof. induction a; cbn; auto. Qed.
+
+(* ---------- progress 1, and a vertex's own cumulative length ---------- *)
+From RM Require Import Proofs.FloatFacts.
+From Coq Require Import Reals.
+Local Open Scope nat_scope.
+
+(* the search when no element compares Greater: the last index *)
+Lemma bs_loop_last {P} (f : P -> comparison) (l : list P) fuel : forall base size,
+  (forall j p, nth_error l j = Some p -> f p <> Gt) ->
+  1 <= size -> size <= S fuel -> base + size <= length l ->
+  bs_loop fuel f l base size = base + size - 1.
+Proof.
+  induction fuel as [|k IH]; intros base size Hng H1 Hf Hl; cbn [bs_loop]; [lia|].
+  destruct (Nat.leb size 1) eqn:E; [apply Nat.leb_le in E; lia|]. apply Nat.leb_gt in E.
+  assert (Hh : 1 <= Nat.div size 2 < size).
+  { split; [apply (Nat.div_le_lower_bound size 2 1); lia|apply Nat.div_lt; lia]. }
+  set (half := Nat.div size 2) in *.
+  destruct (nth_error l (base + half)) as [p|] eqn:En; [|apply nth_error_None in En; lia].
+  pose proof (Hng _ p En) as Hp.
+  replace (match f p with Gt => base | _ => base + half end) with (base + half)
+    by (destruct (f p); congruence).
+  rewrite IH; try assumption; lia.
+Qed.
+
+Lemma bsearch_last {P} (f : P -> comparison) pre x :
+  f x = Eq -> (forall p, In p pre -> f p = Lt) -> bsearch_by f (pre ++ [x]) = inl (length pre).
+Proof.
+  intros Hx Hpre. unfold bsearch_by.
+  destruct (pre ++ [x]) as [|y t] eqn:E; [destruct pre; discriminate|]. rewrite <- E.
+  assert (Hlen : length (pre ++ [x]) = S (length pre)) by (rewrite app_length; cbn; lia).
+  rewrite bs_loop_last; try lia.
+  - rewrite Hlen. cbn [Nat.add Nat.sub]. rewrite Nat.sub_0_r.
+    rewrite nth_error_app2 by lia. rewrite Nat.sub_diag. cbn [nth_error]. rewrite Hx. reflexivity.
+  - intros j p Hj. apply nth_error_In in Hj. apply in_app_or in Hj. destruct Hj as [Hj|[<-|[]]].
+    + rewrite (Hpre p Hj). discriminate.
+    + rewrite Hx. discriminate.
+Qed.
+
+Lemma Bltb_irrefl (x : F64) : D.lt x x = false.
+Proof.
+  unfold D.lt, flt, Bltb, SpecFloat.SFltb.
+  destruct x as [s|s| |s m e H]; cbn [B2SF SpecFloat.SFcompare]; try destruct s; try reflexivity;
+    rewrite Z.compare_refl, ?Pos.compare_cont_refl; cbn; try rewrite Pos.compare_refl; reflexivity.
+Qed.
+
+Lemma cmp_self L : cmp_or_equal L L = Eq.
+Proof.
+  pose proof (Bltb_irrefl L) as H. unfold cmp_or_equal, D.gt, fgt. unfold D.lt, flt in *.
+  rewrite H. reflexivity.
+Qed.
+
+Lemma cmp_below L x : D.lt x L = true -> cmp_or_equal L x = Lt.
+Proof. intros H. unfold cmp_or_equal. rewrite H. reflexivity. Qed.
+
+(* progress 1: the distance is exactly the last cumulative length, and when
+   that length is strictly above all the others the search selects the last
+   index *)
+Theorem progress_one_selects_last pre L :
+  fin64 L -> Forall (fun x => D.lt x L = true) pre ->
+  progress_to_dist (pre ++ [L]) D.one = L /\
+  idx_of_dist (pre ++ [L]) L = length pre.
+Proof.
+  intros HL Hpre. split.
+  - unfold progress_to_dist. rewrite clamp01_one, dist_app. apply D_mul_one_l. exact HL.
+  - unfold idx_of_dist. rewrite bsearch_last; [reflexivity|apply cmp_self|].
+    intros p Hin. apply cmp_below. rewrite Forall_forall in Hpre. apply Hpre. exact Hin.
+Qed.
+
+(* at the cumulative length d1 of vertex i+1, coming from segment (i, i+1):
+   the weight is exactly 1 and the position is p0 + (p1 - p0) -- the vertex p1
+   in exact arithmetic, within one rounding of it in IEEE arithmetic *)
+Theorem interpolate_at_own_length path lengths i p0 p1 d0 d1 :
+  nth_error path i = Some p0 -> nth_error path (S i) = Some p1 ->
+  nth_error lengths i = Some d0 -> nth_error lengths (S i) = Some d1 ->
+  fin64 (D.sub d1 d0) -> B2R (D.sub d1 d0) <> 0%R ->
+  fin32 (px (psub p1 p0)) -> fin32 (py (psub p1 p0)) ->
+  interpolate_vertices path lengths (S i) d1 =
+  Done (if D.le (D.abs (D.sub d0 d1)) D.eps then p0 else padd p0 (psub p1 p0)).
+Proof.
+  intros H0 H1 L0 L1 Hf Hnz Hx Hy.
+  rewrite (interpolate_between path lengths i d1 p0 p1 d0 d1 H0 H1 L0 L1).
+  destruct (D.le (D.abs (D.sub d0 d1)) D.eps); [reflexivity|].
+  rewrite (D_div_self _ Hf Hnz), f32_of_one.
+  unfold pmul. rewrite (S_mul_one_r _ Hx), (S_mul_one_r _ Hy). destruct (psub p1 p0); reflexivity.
+Qed.
+
+(* progress 1 on a curve whose last cumulative length is finite and strictly
+   above the others: the last vertex q, up to the single rounding of
+   p0 + (q - p0) (or the vertex before it when the last segment is within
+   f64::EPSILON of zero length) *)
+Theorem position_at_one ppre p0 q pre d0 L :
+  length ppre = length pre ->
+  fin64 L -> Forall (fun x => D.lt x L = true) (pre ++ [d0]) ->
+  fin64 (D.sub L d0) -> B2R (D.sub L d0) <> 0%R ->
+  fin32 (px (psub q p0)) -> fin32 (py (psub q p0)) ->
+  position_at ((ppre ++ [p0]) ++ [q]) ((pre ++ [d0]) ++ [L]) D.one =
+  Done (if D.le (D.abs (D.sub d0 L)) D.eps then p0 else padd p0 (psub q p0)).
+Proof.
+  intros Hlen HL Hall Hf Hnz Hx Hy.
+  destruct (progress_one_selects_last (pre ++ [d0]) L HL Hall) as [Hd Hi].
+  unfold position_at. rewrite Hd, Hi. rewrite app_length. cbn [length]. rewrite Nat.add_1_r.
+  apply interpolate_at_own_length; try assumption.
+  - rewrite <- app_assoc. cbn [app]. rewrite <- Hlen. apply nth_error_app_mid_pos.
+  - replace (S (length pre)) with (length (ppre ++ [p0])) by (rewrite app_length; cbn; lia).
+    apply nth_error_app_mid_pos.
+  - rewrite <- app_assoc. cbn [app]. apply nth_error_app_mid_pos.
+  - replace (S (length pre)) with (length (pre ++ [d0])) by (rewrite app_length; cbn; lia).
+    apply nth_error_app_mid_pos.
+Qed.
+
+(* a single vertex: progress 1 is that vertex *)
+Theorem position_at_one_single q L : fin64 L ->
+  position_at [q] [L] D.one = Done q.
+Proof.
+  intros HL. destruct (progress_one_selects_last [] L HL (Forall_nil _)) as [Hd Hi].
+  unfold position_at. cbn [app] in *. rewrite Hd, Hi. reflexivity.
+Qed.
